@@ -18,7 +18,54 @@ SHARD_TIMEOUT = {"quick": 240, "thorough": 1500}
 
 
 def plan(tier, seed):
-    return sse.scheme_shards(tier, per_scheme_quick=2, per_scheme_thorough=3, budget_quick=14, budget_thorough=220)
+    specs = sse.scheme_shards(tier, per_scheme_quick=2, per_scheme_thorough=3, budget_quick=14, budget_thorough=220)
+    # tens of thousands of postings with 16-byte identifiers: level entries of more than a MiB (CT14 / ANSS16 pad
+    # whole levels with random strings), many DP17 levels, a PiBas table of 30000 entries
+    for k, pl in enumerate(BIG):
+        specs.append({"name": f"big-{k}", "kind": "big", "plan": k, "budget_s": 200 if tier == "quick" else 600})
+    return specs
+
+
+BIG = [("CT14.Pi", {"param_identifier_size": 16}, [[32768, 1], [8192] * 4 + [1]]),
+       ("ANSS16.Scheme3", {"param_identifier_size": 16}, [[20000, 3000, 1], [10000, 10000, 3001]]),
+       ("DP17.Pi", {"param_identifier_size": 16, "param_L": 2}, [[20000, 5], [5000] * 4 + [5]]),
+       ("CJJ14.PiBas", {}, [[30000], [10000] * 3])]
+
+
+def run_big(spec, acc, ctx):
+    scheme, over, profiles = BIG[spec["plan"]]
+    short = gen.SHORT[scheme]
+    rng = ctx.rng
+    cfg = gen.default_config(scheme)
+    cfg.update(over)
+    L = sse.loader(scheme)
+    shapes = []
+    for lens in profiles:
+        db, info = gen.db_from_lens(rng, scheme, cfg, list(lens), "big")
+        acc.count("cases")
+        acc.count("big_cases")
+        case = {"scheme": scheme, "cfg": cfg, "list_lengths": lens}
+        try:
+            sch = L.SSEScheme(cfg)
+            raw = sch.EDBSetup(sch.KeyGen(), db).serialize()
+            body = pickle.loads(raw[raw.find(b"\x80"):])
+        except Exception as e:
+            acc.violation(f"{short}:big-setup-raised:{exc_site(e)}", f"{type(e).__name__}: {e} (list lengths {lens})", case)
+            return
+        for (path, what, lens_seen) in uniformity_problems(body):
+            acc.violation(f"{short}:mixed-{what}", f"{scheme}, N={sum(lens)}: {path} holds {what} {lens_seen} (padding "
+                                                   f"entries are distinguishable by length)", case)
+            return
+        acc.count("tables_checked_for_uniform_lengths")
+        shapes.append(shape(body))
+        del body, raw
+    acc.count("shape_comparisons")
+    if shapes[0] != shapes[1]:
+        acc.violation(f"{short}:shape-depends-on-more-than-pi",
+                      f"{scheme}: two databases of {sum(profiles[0])} postings have differently shaped indexes: list "
+                      f"lengths {profiles[0][:5]} vs {profiles[1][:5]}", {"scheme": scheme, "cfg": cfg})
+    acc.add("distinct", fp("big", scheme))
+    acc.add("big_schemes", scheme)
 
 
 # ------------------------------------------------------------------------------------------------ shape
@@ -270,6 +317,9 @@ def run_config(scheme, cid, cfg0, acc, ctx):
 
 
 def run_shard(spec, acc, ctx):
+    if spec.get("kind") == "big":
+        run_big(spec, acc, ctx)
+        return
     scheme = spec["scheme"]
     rng = ctx.rng
     i = spec["index"]
@@ -331,7 +381,10 @@ def finish(m, tier, seed):
         "shape_comparisons": c.get("shape_comparisons", 0),
         "edbs_checked_for_uniform_lengths": c.get("tables_checked_for_uniform_lengths", 0),
         "setup_failed": c.get("setup_failed", 0),
+        "databases_of_20000_to_33000_postings": c.get("big_cases", 0),
     }
+    if len(m["sets"].get("big_schemes", [])) < len(BIG):
+        inc.append("the large-database shards did not complete")
     return {"coverage": cov, "inconclusive": inc,
             "assumptions": ["shape = container kinds, entry counts and multisets of (key length, value length) of the "
                             "structure unpickled from EDB.serialize(); int keys form one class",
